@@ -66,6 +66,16 @@ def clamp_type(v, t):
     return v
 
 
+def _walk(n):
+    st = [n]
+    while st:
+        x = st.pop()
+        if x is None:
+            continue
+        yield x
+        st.extend(kids(x))
+
+
 class Analyzer:
     """Shared across functions of a Program: return summaries, table ranges."""
 
@@ -111,6 +121,137 @@ class Analyzer:
             r = TOP
         self._table[key] = r
         return r
+
+    # ---- field invariants
+    def _store_index(self):
+        if getattr(self, '_stores', None) is None:
+            st = {}
+            addr = set()
+            for fn in self.prog.fns.values():
+                for n in fn.nodes.values():
+                    k = n['k']
+                    if k in ('BinaryOperator', 'CompoundAssignOperator') and n.get('op', '').endswith('=') and \
+                            n['op'] not in ('==', '!=', '<=', '>='):
+                        t = strip(kids(n)[0])
+                        if t['k'] == 'MemberExpr' and t.get('rec'):
+                            st.setdefault((t['rec'], t['n']), []).append((fn, n))
+                    elif k == 'UnaryOperator' and n.get('op') in ('++', '--', '&'):
+                        t = strip(kids(n)[0])
+                        if t['k'] == 'MemberExpr' and t.get('rec'):
+                            if n['op'] == '&':
+                                addr.add((t['rec'], t['n']))
+                            else:
+                                st.setdefault((t['rec'], t['n']), []).append((fn, n))
+                    elif k == 'MemberExpr' and n.get('rec') and n.get('lv'):
+                        # passed by reference to a call
+                        p = fn.parent.get(n['i'])
+                        if p is not None and p['k'] in ('CallExpr', 'CXXMemberCallExpr', 'CXXConstructExpr'):
+                            addr.add((n['rec'], n['n']))
+            self._stores, self._addr = st, addr
+        return self._stores, self._addr
+
+    def field_range(self, rec, field, ftype):
+        """Join of every value stored to rec::field anywhere in the program (0 included: objects are
+        zero-initialised by constructors/memset); the type's range when a store cannot be bounded.
+        Mutually dependent fields (x = y; y = x & 15) are solved by optimistic iteration: a field read while
+        its own range is being computed yields the current approximation, and the outermost computation is
+        repeated until the approximations are stable (else the type range)."""
+        key = (rec, field)
+        fr = self.__dict__.setdefault('_fr', {})
+        if key in fr:
+            return fr[key]
+        tr = type_range(ftype)
+        d = self.__dict__
+        inprog = d.setdefault('_inprog', [])
+        approx = d.setdefault('_approx', {})
+        tmp = d.setdefault('_tmp', {})
+        if key in inprog:
+            d['_cyc'] = True
+            return approx.get(key, (0, 0))
+        if key in tmp:
+            return tmp[key]
+        root = not inprog
+        if root:
+            d['_cyc'] = False
+            tmp.clear()
+            saved_fac = dict(d.setdefault('_fac', {}))
+        rounds = 0
+        while True:
+            inprog.append(key)
+            try:
+                r = self._field_range_once(key, ftype, tr)
+            finally:
+                inprog.pop()
+            if not root:
+                tmp[key] = r
+                return r
+            if not d['_cyc']:
+                break
+            # a cycle was met: everything computed in this round assumed `approx`
+            def within(a, b):
+                return a[0] is not None and a[1] is not None and b[0] is not None and b[1] is not None and \
+                    b[0] <= a[0] and a[1] <= b[1]
+            stable = within(r, approx.get(key, (0, 0))) and all(within(v, approx.get(k, (0, 0))) for k, v in tmp.items())
+            if stable:
+                break
+            rounds += 1
+            if rounds > 4:
+                r = tr
+                for k in list(tmp):
+                    tmp[k] = None
+                break
+            approx[key] = join(approx.get(key, (0, 0)), r)
+            for k, v in tmp.items():
+                approx[k] = join(approx.get(k, (0, 0)), v)
+            tmp.clear()
+            d['_fac'] = dict(saved_fac)
+            d['_cyc'] = False
+        fr[key] = r
+        for k, v in tmp.items():
+            if v is not None:
+                fr.setdefault(k, v)
+        tmp.clear()
+        return r
+
+    def _field_range_once(self, key, ftype, tr):
+        rec, field = key
+        stores, addr = self._store_index()
+        if key in addr:
+            return tr
+        r = (0, 0)
+        recd = self.prog.records.get(rec)
+        if recd:
+            for f in recd['fields']:
+                if f['n'] == field and 'init' in f:
+                    v = const(f['init'])
+                    r = join(r, (v, v)) if v is not None else tr
+        for fn in self.prog.fns.values():
+            if fn.j.get('kind') == 'ctor' and fn.j.get('cls') == rec:
+                for i in fn.j.get('inits', ()):
+                    if i.get('field') == field and i.get('e') is not None:
+                        e = strip(i['e'], casts=True)
+                        if e['k'] == 'InitListExpr' and kids(e):
+                            e = kids(e)[0]
+                        v = const(e)
+                        r = join(r, (v, v)) if v is not None else tr
+        for fn, n in stores.get(key, ()):
+            if n['k'] != 'BinaryOperator' or n.get('op') != '=':
+                return tr
+            fa = self._fa_cache(fn)
+            v = fa.eval_at(kids(n)[1], n)
+            v = clamp_type(v, ftype)
+            r = join(r, v)
+            if r[0] is None or r[1] is None:
+                return tr
+        if tr != TOP:
+            r = meet(r, tr) if not is_empty(meet(r, tr)) else tr
+        return r
+
+    def _fa_cache(self, fn):
+        c = self.__dict__.setdefault('_fac', {})
+        if fn.key not in c:
+            c[fn.key] = FnIntervals(self, fn)
+        return c[fn.key]
 
     # ---- function return summaries
     def return_range(self, key, depth=0, args=None):
@@ -169,17 +310,28 @@ class FnIntervals:
                     t = fn.types[d['t']]
                     if type_range(t) != TOP and not d.get('static'):
                         tr[d['d']] = t
-        # address-taken variables are not tracked; neither are variables captured by reference params
+        # a variable whose address is only ever passed directly to calls (`f(&v)`) or that is bound to a reference
+        # parameter stays tracked and is set to its type range at those calls; any other use of its address
+        # (stored in a pointer, pointer arithmetic) makes it untracked
+        self.killed_at = {}
         for n in fn.nodes.values():
             if n['k'] == 'UnaryOperator' and n.get('op') == '&':
                 t = strip(kids(n)[0])
-                if t['k'] == 'DeclRefExpr':
-                    tr.pop(t.get('d'), None)
+                if t['k'] == 'DeclRefExpr' and t.get('d') in tr:
+                    p = fn.parent.get(n['i'])
+                    while p is not None and p['k'] in ('ImplicitCastExpr', 'ParenExpr', 'CStyleCastExpr'):
+                        p = fn.parent.get(p['i'])
+                    if p is not None and p['k'] in ('CallExpr', 'CXXMemberCallExpr', 'CXXConstructExpr'):
+                        self.killed_at.setdefault(p['i'], set()).add(t['d'])
+                    else:
+                        tr.pop(t.get('d'), None)
             elif n['k'] == 'DeclRefExpr' and n.get('d') in tr:
                 # passed where a reference is expected: parent is a call and the arg is an lvalue (no L2R cast)
                 p = fn.parent.get(n['i'])
                 if p is not None and p['k'] in ('CallExpr', 'CXXMemberCallExpr', 'CXXConstructExpr') and n.get('lv'):
-                    tr.pop(n['d'], None)
+                    self.killed_at.setdefault(p['i'], set()).add(n['d'])
+        for ds in self.killed_at.values():
+            ds &= set(tr)
         # scalar integer members of `this` (and its bases) are tracked as pseudo-variables 'M:<name>';
         # they are killed at every call that can run code of the same class hierarchy
         cls = fn.j.get('cls')
@@ -248,7 +400,18 @@ class FnIntervals:
     def var(self, st, d):
         if d in st:
             return st[d]
+        if isinstance(d, str) and d.startswith('M:'):
+            rec = self._field_owner(d[2:])
+            if rec:
+                return self.an.field_range(rec, d[2:], self.tracked.get(d))
         return type_range(self.tracked.get(d))
+
+    def _field_owner(self, name):
+        for c in self.hier:
+            r = self.prog.records.get(c)
+            if r and any(f['n'] == name for f in r['fields']):
+                return c
+        return None
 
     def eval(self, n, st):
         if n is None:
@@ -332,6 +495,8 @@ class FnIntervals:
                         r = self.an.table_field_range(arr['n'], n['n'])
                         if r != TOP:
                             return r
+            if n.get('rec') and not n.get('method') and 'bits' not in n and type_range(t) != TOP:
+                return self.an.field_range(n['rec'], n['n'], t)
             if 'bits' in n:
                 w = n['bits']
                 tr = type_range(t)
@@ -571,6 +736,11 @@ class FnIntervals:
 
     def step(self, n, st):
         k = n['k']
+        ka = self.killed_at.get(n['i']) if k in ('CallExpr', 'CXXMemberCallExpr', 'CXXConstructExpr') else None
+        if ka:
+            for d in ka:
+                st.pop(d, None)
+                self._kill_facts(st, d)
         if k in ('CallExpr', 'CXXMemberCallExpr', 'CXXConstructExpr', 'CXXOperatorCallExpr'):
             if (n.get('callee') or '') not in self.PURE_CALLS:
                 self._kill_deps(st, lambda x: x == '*mem*')
@@ -759,6 +929,25 @@ class FnIntervals:
                 if fk0:
                     cnt[fk0[0]] = cnt.get(fk0[0], 0) + 1
         multi = {k for k, c in cnt.items() if c >= 2}
+        # widening thresholds: constants each tracked variable is compared with (K-1, K, K+1)
+        thr = {}
+        for nn in fn.nodes.values():
+            if nn['k'] == 'BinaryOperator' and nn.get('op') in ('<', '<=', '>', '>=', '==', '!='):
+                for a, bb in ((kids(nn)[0], kids(nn)[1]), (kids(nn)[1], kids(nn)[0])):
+                    x = a
+                    while x is not None and x['k'] in ('ImplicitCastExpr', 'ParenExpr') and kids(x):
+                        x = kids(x)[0]
+                    vid = self._vid(x) if x is not None else None
+                    kv = const(bb)
+                    if vid is not None and kv is not None:
+                        thr.setdefault(vid, set()).update((kv - 1, kv, kv + 1))
+            elif nn['k'] == 'ArraySubscriptExpr' and 'bound' in nn:
+                x = kids(nn)[1]
+                while x is not None and x['k'] in ('ImplicitCastExpr', 'ParenExpr') and kids(x):
+                    x = kids(x)[0]
+                vid = self._vid(x) if x is not None else None
+                if vid is not None:
+                    thr.setdefault(vid, set()).update((nn['bound'] - 1, nn['bound']))
 
         def pkey(st):
             return frozenset((k, v[0]) for k, v in st.items() if isinstance(k, tuple) and k[0] == 'F')
@@ -789,6 +978,14 @@ class FnIntervals:
                     self.step(n, st)
             succ = b['s']
             cond = fn.nodes.get(b.get('cond')) if 'cond' in b else None
+            # the block that ends `if (a || b)` / `if (a && b)` carries the whole condition as terminator
+            # condition, but by then the left operand is decided: the branch is on the rightmost operand
+            while cond is not None:
+                cs_ = strip(cond)
+                if cs_['k'] == 'BinaryOperator' and cs_.get('op') in ('||', '&&') and b.get('termk') != 'BinaryOperator':
+                    cond = kids(cs_)[1]
+                else:
+                    break
             outs = []
             if cond is not None and len(succ) == 2 and b.get('termk') != 'SwitchStmt':
                 fk = self.fact_key(cond)
@@ -847,13 +1044,20 @@ class FnIntervals:
                                 visits[(s, k2, d)] = visits.get((s, k2, d), 0) + 1
                             if visits.get((s, k2, d), 0) > 3:
                                 tr = type_range(self.tracked.get(d))
-                                lo = v[0] if v[0] == o[0] else tr[0]
-                                hi = v[1] if v[1] == o[1] else tr[1]
+                                lo, hi = v
+                                if v[0] != o[0]:
+                                    c = [t for t in thr.get(d, ()) if v[0] is not None and t <= v[0]]
+                                    lo = max(c) if c and visits[(s, k2, d)] < 12 else tr[0]
+                                if v[1] != o[1]:
+                                    c = [t for t in thr.get(d, ()) if v[1] is not None and t >= v[1]]
+                                    hi = min(c) if c and visits[(s, k2, d)] < 12 else tr[1]
                                 v = (lo, hi)
                             if v != type_range(self.tracked.get(d)):
                                 w[d] = v
                         new = w
                     if new != old:
+                        if _DEBUG is not None and s == _DEBUG[0]:
+                            print('IV', bid, '->', s, 'old', old.get(_DEBUG[1]), 'in', so.get(_DEBUG[1]), 'new', new.get(_DEBUG[1]))
                         parts[k2] = new
                         work.append((s, k2))
         self.inn = inn
@@ -894,6 +1098,17 @@ class FnIntervals:
         for x in sts[1:]:
             m = self._join_states(m, x)
         return m
+
+    def eval_own(self, expr):
+        """Value of expr in the state just before its own evaluation starts (before the side effects of its
+        sub-expressions such as i++, which the CFG lists ahead of the enclosing node)."""
+        first = None
+        best = None
+        for x in _walk(expr):
+            w = self.fn.where.get(x['i'])
+            if w is not None and (best is None or w < best):
+                best, first = w, x
+        return self.eval_at(expr, first if first is not None else expr)
 
     def eval_at(self, expr, at):
         sts = self.states_before(at)
